@@ -9,6 +9,7 @@ PROPS = {}
 HOOK_COMMITS = ["cb99e5e"]
 NOT_YET = {}
 
+
 PROPS["C14"] = {
     "level": "exploration",
     "technique": "property-based testing: differential against a reference decoder + round-trip + CRC metamorphic relation (rapid), native fuzzing in thorough",
@@ -275,11 +276,14 @@ PROPS["C04"] = {
 PROPS["C02"] = {
     "level": "exploration",
     "technique": "model-based stateful property testing (rapid): fault sequences over a 3-replica mini-cluster (real replication/truncation/commit code, harness-driven metadata log), history invariants after every step",
-    "level_text": "TODO",
-    "level_note": "TODO",
-    "rule": "TODO",
+    "level_text": ("fault sequences over a 3-replica partition on three bare servers sharing one in-process NATS server: publish (LEADER/ALL policy), settle, hold/release replication per replica, "
+                   "crash (with a current or stale HW checkpoint) and restart of any replica with log reconciliation, ISR shrink/expand (also while behind), elections from the ISR (followers or leader applying the change first, "
+                   "old leader crashed or deposed alive), two directed templates for double failovers; replication, truncation, leader-offset requests, epoch caches and commit are the real code, the harness plays the Raft log through the real Server.apply. "
+                   "After every step: each replica's log is contiguous with non-decreasing epochs, HW never moves back within an incarnation, any two replicas agree on every offset at or below both HWs, "
+                   "every ALL-acknowledged message is served unchanged at its offset by every later leader, no offset is acknowledged for two messages"),
+    "level_note": "metadata operations are delivered by the harness, not by hashicorp/raft (elections always pick from the recorded ISR, as the controller does); one known finding (HW-truncation fallback, issue #38) is excluded by construction and counted: a follower never restarts while no leader is reachable, and followers never apply a leader change before the new leader does",
+    "rule": "rapid draws 4-30 steps or one of two directed templates. Non-trivial = at least one leader change after a committed publish; labels count two leader changes, stale HW checkpoints, rejoin with an uncommitted tail, leaders deposed alive, expands while behind.",
     "assumptions": TRUST,
-    "claimed": False,
     "units": [
         {"name": "C02", "pkg": "server", "test": "TestVerifC02",
          "quick": {"shards": 8, "checks": 25}, "thorough": {"shards": 16, "checks": 400, "timeout": 3000}},
@@ -298,5 +302,21 @@ PROPS["C05"] = {
          "quick": {"shards": 16, "checks": 40}, "thorough": {"skip": True}},
         {"name": "C05enum", "pkg": "server/commitlog", "test": "TestVerifC05Enum",
          "quick": {"skip": True}, "thorough": {"shards": 16, "checks": 120, "timeout": 3400}},
+    ],
+}
+
+PROPS["C18"] = {
+    "level": "exploration",
+    "technique": "model-based stateful property testing (rapid): metadata-operation histories with injected activity-publish failures and restarts on a started server, activity stream compared with the committed Raft log",
+    "level_text": ("histories of stream and consumer-group operations (create/delete/pause/resume/read-only/join/leave) through the API of a started single-node server with the activity stream enabled, "
+                   "interleaved with windows in which publishing to __activity fails (the stream is set read-only, so the dispatcher backs off and retries) and with server restarts (also inside such a window); "
+                   "ground truth is the committed Raft log read back from the store: every event-producing operation has at least one event, event id = its Raft index, content equals the operation, "
+                   "first occurrences appear in strictly increasing id order, a redelivery is identical to the first delivery, no event without an operation; bounded liveness: the dispatcher catches up within 45 s after the last fault"),
+    "level_note": "single node: the controller change is a restart of the only controller (resume from the replicated last-published index); a 3-node controller failover is not driven",
+    "rule": "rapid draws 4-14 operations with up to two fault windows/restarts. Non-trivial = the history contains at least one publish-failure window or restart (so a retry or a resume from the recorded index happened).",
+    "assumptions": TRUST,
+    "units": [
+        {"name": "C18", "pkg": "server", "test": "TestVerifC18",
+         "quick": {"shards": 8, "checks": 4, "timeout": 400}, "thorough": {"shards": 16, "checks": 60, "timeout": 3000}},
     ],
 }
